@@ -65,6 +65,9 @@ using std::size_t;
 // to avoid transcoding number strings when we don't have to,
 const size_t    MAX_PRINTF_DIGITS = 1 + (DBL_MAX_10_EXP + 1) + 1 + 35;
 
+// 2^63: a double in [-2^63, 2^63) can be converted to XMLInt64.
+const double    MAX_INT64_AS_DOUBLE = 9223372036854775808.0;
+
 // The maximum number of characters for a floating point number.
 const size_t    MAX_FLOAT_CHARACTERS = 100;
 
@@ -1436,7 +1439,8 @@ DOMStringHelper::NumberToCharacters(
             theZeroString,
             sizeof(theZeroString) / sizeof(theZeroString[0]) - 1);
     }
-    else if (static_cast<XMLInt64>(theValue) == theValue)
+    else if (theValue >= -MAX_INT64_AS_DOUBLE && theValue < MAX_INT64_AS_DOUBLE &&
+             static_cast<XMLInt64>(theValue) == theValue)
     {
         NumberToCharacters(static_cast<XMLInt64>(theValue), formatterListener, function);
     }
@@ -1736,7 +1740,8 @@ NumberToDOMString(
             theZeroString,
             sizeof(theZeroString) / sizeof(theZeroString[0]) - 1);
     }
-    else if (static_cast<XMLInt64>(theValue) == theValue)
+    else if (theValue >= -MAX_INT64_AS_DOUBLE && theValue < MAX_INT64_AS_DOUBLE &&
+             static_cast<XMLInt64>(theValue) == theValue)
     {
         NumberToDOMString(static_cast<XMLInt64>(theValue), theResult);
     }
